@@ -305,9 +305,16 @@ func (r *Runner) Run() int {
 		"exhaustive":         len(inconclusive) == 0,
 		"explanation":        "states = feasible complete paths of the real SSA explored symbolically; transitions = branch/assert/panic-guard decisions (SMT queries + decisions settled by exact per-byte domain propagation)",
 	}
+	nz := func(a []string) []string {
+		if a == nil {
+			return []string{}
+		}
+		return a
+	}
+	cov["outside_bounds"], cov["stubs"], cov["inconclusive"], cov["known_findings_hit"], cov["recovered_panics"] = nz(c.Outside), nz(c.Stubs), nz(inconclusive), nz(knownHit), nz(recKeys)
 	ev := map[string]interface{}{
 		"property_id": c.ID, "tier": r.Tier, "seed": r.Seed, "level": "model_checking",
-		"coverage": cov, "assumptions": c.Assumptions, "wall_s": wall.Seconds(), "violations": violN,
+		"coverage": cov, "assumptions": nz(c.Assumptions), "wall_s": wall.Seconds(), "violations": violN,
 	}
 	os.MkdirAll(filepath.Join(r.Verif, "evidence"), 0o755)
 	b, _ := json.MarshalIndent(ev, "", " ")
